@@ -217,6 +217,32 @@ def event_fields(an: Anchors) -> list:
     return [st.target.id for st in an.event_class.node.body if isinstance(st, ast.AnnAssign) and isinstance(st.target, ast.Name)]
 
 
+def _predicate_expr(stmts):
+    """The boolean expression computed by a predicate written with guard clauses
+    (`if a: return b` / `return False`  ==  `a and b`), or None."""
+    if not stmts:
+        return None
+    st = stmts[0]
+    if isinstance(st, ast.Return) and st.value is not None:
+        return st.value
+    if isinstance(st, ast.If):
+        t_ = _predicate_expr(st.body)
+        e_ = _predicate_expr(list(st.orelse) + list(stmts[1:]))
+        if t_ is None or e_ is None:
+            return None
+        is_c = lambda x, v: isinstance(x, ast.Constant) and x.value is v  # noqa: E731
+        if is_c(e_, False):
+            return ast.BoolOp(op=ast.And(), values=[st.test, t_])
+        if is_c(t_, False):
+            return ast.BoolOp(op=ast.And(), values=[ast.UnaryOp(op=ast.Not(), operand=st.test), e_])
+        if is_c(t_, True):
+            return ast.BoolOp(op=ast.Or(), values=[st.test, e_])
+        if is_c(e_, True):
+            return ast.BoolOp(op=ast.Or(), values=[ast.UnaryOp(op=ast.Not(), operand=st.test), t_])
+        return ast.BoolOp(op=ast.Or(), values=[ast.BoolOp(op=ast.And(), values=[st.test, t_]), ast.BoolOp(op=ast.And(), values=[ast.UnaryOp(op=ast.Not(), operand=st.test), e_])])
+    return None
+
+
 def run(ctx) -> None:
     rep = ctx.rep
     a = ctx.a
@@ -324,6 +350,10 @@ def run(ctx) -> None:
                 rets = [x for x in walk_own(fn.node) if isinstance(x, ast.Return)]
                 if len(rets) == 1 and rets[0].value is not None:
                     preds.append((call, fn.node, rets[0].value, fn.params[0] if fn.params else None))
+                else:
+                    pe = _predicate_expr([s_ for s_ in fn.node.body if not (isinstance(s_, ast.Expr) and isinstance(s_.value, ast.Constant))])
+                    if pe is not None:
+                        preds.append((call, fn.node, pe, fn.params[0] if fn.params else None))
             elif isinstance(arg, ast.Call):
                 # a predicate factory: helper(type, name) returning a lambda / nested function
                 c2 = a.callee(W, arg)
